@@ -322,3 +322,255 @@ def r11_validity_mark(ctx):
 
 
 RULES += [r10_dual_set_membership, r11_validity_mark]
+
+
+# ------------------------------------------------------------------ fixed_tvpi: ghost variables stand for v / COEF
+TV = "include/crab/domains/fixed_tvpi_domain.hpp"
+TVC = "crab::domains::fixed_tvpi_domain"
+
+
+def r12_tvpi_ghosts(ctx):
+    ctx.rule("C03.r12", "fixed_tvpi_domain: the ghost variable G(v) stands for v / COEF. (a) every rewrite helper of an operation that "
+             "redefines x redefines or forgets G(x) on every path; (b) each rewrite of x := y op z establishes exactly that meaning: "
+             "the branch taken for sample constants z (1, COEF, multiples of COEF, others) is interpreted over exact rationals and the "
+             "value it gives to G(x) / x is compared with (y op z) / COEF resp. y op z", floor=20)
+    from fractions import Fraction
+    from ..paths import MustEvents, Unstructured
+    from ..tree import deref
+    fns = [f for f in ctx.db.fns(TV, cpk=TVC) if f["name"] in ("rewrite_apply", "rewrite_apply_var", "rewrite_assign")]
+    if not ctx.need(fns, "fixed_tvpi_domain rewrite helpers", "C03.r12"):
+        return
+    seen = set()
+    for fn in fns:
+        key = (fn["name"], fn.get("psig"))
+        if key in seen:
+            continue            # one instantiation is enough: the helpers do not depend on the base domain
+        seen.add(key)
+        body = fn["body"]
+        d = local_decls(body)
+        xs = [p for p in fn.get("params", []) if p["n"] == "x"] or [p for p in fn.get("params", []) if "variable" in (p.get("T") or "")][:1]
+        if not xs:
+            ctx.skipped("C03.r12|%s|no written parameter" % fn["name"], rid="C03.r12")
+            continue
+        xid = xs[0]["id"]
+
+        def ghost_of(e, d=d):
+            """parameter id whose ghost the expression denotes, or None"""
+            e = strip(e)
+            for _ in range(4):
+                if isinstance(e, dict) and e.get("k") == "ctor" and len(e.get("a", [])) == 1:
+                    e = strip(e["a"][0])
+            if isinstance(e, dict) and e.get("k") == "ref" and e.get("rk") == "local":
+                dd = d.get(e.get("id")) or {}
+                if "i" in dd:
+                    for c in walk(dd["i"]):
+                        if is_call(c, name="get_ghost_var") and c.get("a"):
+                            a0 = strip(c["a"][0])
+                            if isinstance(a0, dict) and a0.get("k") == "call" and a0.get("op") == "*":
+                                a0 = strip(a0.get("o"))      # *y  (optional dereference)
+                            if isinstance(a0, dict) and a0.get("k") == "ref":
+                                return a0.get("id")
+            return None
+
+        # (a) ghost kill
+        def gen(n):
+            out = []
+            if n.get("k") == "call" and callee(n):
+                nm = callee(n)["name"]
+                a = n.get("a", [])
+                if is_field(obj(n), "m_base_absval") if n.get("o") is not None else False:
+                    tgt = None
+                    if nm in ("assign", "weak_assign", "operator-=") and a:
+                        tgt = a[0]
+                    elif nm == "apply" and len(a) >= 2:
+                        tgt = a[1]
+                    if tgt is not None and ghost_of(tgt) == xid:
+                        out.append("ghost-killed")
+                if nm in ("rewrite_apply", "rewrite_apply_var") and len(a) >= 2 and (n.get("o") is None or is_this(deref(n.get("o")))):
+                    t = strip(a[1])
+                    if isinstance(t, dict) and t.get("k") == "ref" and t.get("id") == xid:
+                        out.append("ghost-killed")
+            return out
+        try:
+            fl = MustEvents(gen)
+            fl.run(body)
+        except Unstructured:
+            ctx.skipped("C03.r12|%s" % fn["name"], rid="C03.r12")
+            continue
+        for r, st in fl.returns:
+            if "ghost-killed" in st:
+                ctx.ok("%s: G(x) redefined or forgotten" % fn["name"], fn, r)
+            else:
+                ctx.bad("fixed_tvpi_domain::%s can return without redefining or forgetting the ghost variable of the variable the "
+                        "operation redefines: G(x) keeps the quotient of the PREVIOUS value of x and later constraints over x are "
+                        "rewritten with it" % fn["name"], fn, r if r is not None else body, sig="tvpi-stale-ghost:%s" % fn["name"])
+        if fn["name"] != "rewrite_apply" or len(fn.get("params", [])) != 5:
+            continue
+
+        # (b) identities by exact interpretation
+        pid = {p["n"]: p["id"] for p in fn["params"]}
+        P_OP, P_X, P_Y, P_Z, P_N = [fn["params"][i]["id"] for i in range(5)]
+
+        class _Unk(Exception):
+            pass
+
+        def num(e, env):
+            e = strip(e)
+            if not isinstance(e, dict):
+                raise _Unk("num")
+            k = e.get("k")
+            if k == "lit":
+                return Fraction(int(e["v"]))
+            if k in ("ctor", "cast") and (len(e.get("a", [])) == 1 or "e" in e):
+                return num(e["a"][0] if "a" in e else e["e"], env)
+            if k == "ref":
+                if e.get("id") == P_Z:
+                    return env["z"]
+                if e.get("id") == P_N:
+                    return env["N"]
+                if e.get("rk") == "local":
+                    dd = d.get(e.get("id")) or {}
+                    if "i" in dd:
+                        return num(dd["i"], env)
+                if e.get("rk") == "enum":
+                    return Fraction(int(e.get("v")))
+                if e.get("id") == P_OP:
+                    return Fraction(env["op"])
+                raise _Unk(src(e))
+            if k == "un" and e.get("op") == "-":
+                return -num(e.get("e"), env)
+            if k == "call" and e.get("op") in ("%", "/", "*", "+", "-") and "o" in e and e.get("a"):
+                a, b = num(e["o"], env), num(e["a"][0], env)
+                if e["op"] == "%":
+                    if b == 0 or a.denominator != 1 or b.denominator != 1:
+                        raise _Unk("%")
+                    return Fraction(abs(int(a)) % abs(int(b)))
+                if e["op"] == "/":
+                    if b == 0:
+                        raise _Unk("/0")
+                    if a.denominator == 1 and b.denominator == 1:
+                        # z_number division truncates toward zero
+                        q = abs(int(a)) // abs(int(b))
+                        return Fraction(q if (a >= 0) == (b > 0) else -q)
+                    return a / b
+                return {"*": a * b, "+": a + b, "-": a - b}[e["op"]]
+            if k == "bin" and e.get("op") in ("%", "/", "*", "+", "-"):
+                a, b = num(e["L"], env), num(e["R"], env)
+                return {"*": a * b, "+": a + b, "-": a - b, "/": a / b, "%": Fraction(int(a) % int(b))}[e["op"]]
+            raise _Unk(src(e)[:30])
+
+        def cond(e, env):
+            e = strip(e)
+            k = e.get("k")
+            if k == "bin" and e.get("op") in ("||", "&&"):
+                a, b = cond(e["L"], env), cond(e["R"], env)
+                return (a or b) if e["op"] == "||" else (a and b)
+            if k == "un" and e.get("op") == "!":
+                return not cond(e.get("e"), env)
+            if k == "lit" and e.get("v") in ("true", "false"):
+                return e["v"] == "true"
+            if k == "bin" and e.get("op") in ("==", "!="):
+                r = num(e["L"], env) == num(e["R"], env)
+                return r if e["op"] == "==" else not r
+            if k == "call" and e.get("op") in ("==", "!=") and "o" in e and e.get("a"):
+                r = num(e["o"], env) == num(e["a"][0], env)
+                return r if e["op"] == "==" else not r
+            raise _Unk(src(e)[:40])
+
+        def val(e, env):
+            """rational value of a variable operand (real variable or ghost)"""
+            g = ghost_of(e)
+            if g is not None:
+                v = env["vars"].get(("g", g), env["vars"].get(("r", g)) / env["N"] if env["vars"].get(("r", g)) is not None and ("g", g) not in env["vars"] else None)
+                return env["vars"].get(("g", g))
+            x = strip(e)
+            for _ in range(4):
+                if isinstance(x, dict) and x.get("k") == "ctor" and len(x.get("a", [])) == 1:
+                    x = strip(x["a"][0])
+            if isinstance(x, dict) and x.get("k") == "ref" and x.get("rk") == "param":
+                return env["vars"].get(("r", x["id"]))
+            try:
+                return num(e, env)
+            except _Unk:
+                raise _Unk("operand " + src(e)[:30])
+
+        def target(e):
+            g = ghost_of(e)
+            if g is not None:
+                return ("g", g)
+            x = strip(e)
+            if isinstance(x, dict) and x.get("k") == "ref" and x.get("rk") == "param":
+                return ("r", x["id"])
+            raise _Unk("target " + src(e)[:30])
+        OPS = {0: lambda a, b: a + b, 1: lambda a, b: a - b, 2: lambda a, b: a * b, 3: lambda a, b: a / b}
+
+        def run(n, env):
+            """returns True when a `return` was executed"""
+            if not isinstance(n, dict):
+                return False
+            k = n.get("k")
+            if k == "seq":
+                for x in n.get("b", []):
+                    if run(x, env):
+                        return True
+                return False
+            if k == "if":
+                if cond(n.get("c"), env):
+                    return run(n.get("t"), env)
+                return run(n.get("e"), env) if "e" in n else False
+            if k == "ret":
+                return True
+            if k in ("decl", "cast", "null"):
+                return False
+            if k == "do" and n.get("m") in ("CRAB_LOG", "CRAB_WARN", "assert"):
+                return False
+            if k == "call" and callee(n) and n.get("o") is not None and is_field(obj(n), "m_base_absval"):
+                nm = callee(n)["name"]
+                a = n.get("a", [])
+                if nm == "assign" and len(a) == 2:
+                    env["vars"][target(a[0])] = val(a[1], env)
+                    return False
+                if nm == "operator-=" and len(a) == 1:
+                    env["vars"][target(a[0])] = None
+                    return False
+                if nm == "apply" and len(a) == 4:
+                    o = int(num(a[0], env))
+                    l, r = val(a[2], env), num(a[3], env)
+                    env["vars"][target(a[1])] = None if (l is None or o not in OPS or (o == 3 and r == 0)) else OPS[o](l, r)
+                    return False
+            raise _Unk("statement " + src(n)[:40])
+        n_eval = 0
+        for N in (2, 3):
+            for op in (0, 1, 2, 3, 4):
+                for z in (1, N, 2 * N, -3 * N, N + 1, 5 * N + 1):
+                    y = Fraction(5040 * N)
+                    x_old = Fraction(77)
+                    env = {"N": Fraction(N), "z": Fraction(z), "op": op,
+                           "vars": {("r", P_Y): y, ("g", P_Y): y / N, ("g", P_X): x_old / N}}
+                    # the enclosing apply() has already performed the operation on the real variable
+                    x_new = OPS[op](y, Fraction(z)) if op in OPS else None
+                    env["vars"][("r", P_X)] = x_new
+                    try:
+                        run(body, env)
+                    except _Unk as e:
+                        ctx.skipped("C03.r12|id|%d|%d|%d" % (N, op, z), rid="C03.r12")
+                        continue
+                    n_eval += 1
+                    gx, rx = env["vars"].get(("g", P_X)), env["vars"].get(("r", P_X))
+                    opn = {0: "+", 1: "-", 2: "*", 3: "/"}.get(op, "?")
+                    if x_new is not None and rx is not None and rx != x_new:
+                        ctx.bad("fixed_tvpi_domain::rewrite_apply: for x := y %s %d with COEF = %d the rewrite gives x the value %s for "
+                                "y = %s, the operation gives %s" % (opn, z, N, rx, y, x_new), fn, body,
+                                sig="tvpi-identity:x:%s:%s" % (opn, "multiple" if z % N == 0 and abs(z) != N else z))
+                    elif gx is not None and (x_new is None or gx != x_new / N):
+                        ctx.bad("fixed_tvpi_domain::rewrite_apply: for x := y %s %d with COEF = %d the rewrite records G(x) = %s for "
+                                "y = %s, but x / COEF = %s" % (opn, z, N, gx, y, (x_new / N) if x_new is not None else "unknown"), fn, body,
+                                sig="tvpi-identity:ghost:%s:%s" % (opn, "multiple" if z % N == 0 and abs(z) != N else z))
+                    else:
+                        ctx.ok("rewrite_apply: x := y %s %d, COEF %d: G(x) %s" % (opn, z, N, "forgotten" if gx is None else "= x / COEF"),
+                               fn, body, key="C03.r12|id|%d|%d|%d" % (N, op, z))
+        if n_eval == 0:
+            ctx.fail("rule C03.r12: no rewrite of rewrite_apply could be interpreted")
+
+
+RULES += [r12_tvpi_ghosts]
